@@ -354,3 +354,70 @@ def sender_iteration(E):
     for other in futs:
         if other is not fut:
             E.prove('sender:no_other_future_resolved', other.attrs['state'] == 'pending')
+
+
+# --------------------------------------------------------------------------- frame condition: who may touch the send queue
+
+KNOWN_QUEUE_METHODS = {'send_frame', 'send_priority_frame', '_get_next_frame_to_send', '_reset_internals',
+                       '_is_stream_queued_behind_head', '_sender'}
+
+
+def _queue_mutators(E):
+    """Methods of RSocketBase (and subclasses in the same files) whose body calls something on self._send_queue."""
+    import ast as _ast
+    import os as _os
+    out = []
+    for rel in ('rsocket/rsocket_base.py', 'rsocket/rsocket_client.py', 'rsocket/rsocket_server.py'):
+        tree = _ast.parse(open(_os.path.join(E.repo_root, rel)).read())
+        for cls in [n for n in tree.body if isinstance(n, _ast.ClassDef)]:
+            for fn in [n for n in cls.body if isinstance(n, (_ast.FunctionDef, _ast.AsyncFunctionDef))]:
+                for n in _ast.walk(fn):
+                    if isinstance(n, _ast.Call) and isinstance(n.func, _ast.Attribute) and isinstance(n.func.value, _ast.Attribute) \
+                            and n.func.value.attr == '_send_queue':
+                        out.append((rel, cls.name, fn.name, n.func.attr, isinstance(fn, _ast.AsyncFunctionDef), len(fn.args.args) - 1))
+                        break
+    return out
+
+
+@harness('c05.queue_frame_condition.bounded', ['C05', 'C10', 'C09'], kind='bounded', functions=[BASE + '.send_frame'],
+         assumptions=['BOUNDED stand-in for operations on the send queue that have no contract of their own (none on the unchanged '
+                      'tree): queue of up to 3 sources with symbolic streams / started flags; integer arguments symbolic'])
+def queue_frame_condition(E):
+    """The queue invariant is proved for send_frame / send_priority_frame / the sender step.  Any OTHER operation of the
+    endpoint that touches the queue must at least keep it: per-stream order, and - since the receiver is in the middle of
+    reassembling it - a partially sent source is never dropped."""
+    muts = _queue_mutators(E)
+    E.cover('scanned')
+    known = [m for m in muts if m[2] in KNOWN_QUEUE_METHODS]
+    other = [m for m in muts if m[2] not in KNOWN_QUEUE_METHODS]
+    E.prove('frame_condition:the_contracted_queue_operations_are_present', {m[2] for m in known} >= {'send_frame', 'send_priority_frame', '_get_next_frame_to_send'})
+    for rel, cname, mname, op, is_async, nargs in other:
+        E.import_module('asyncio')
+        sock = new_obj(E, 'rsocket/rsocket_server.py::RSocketServer')
+        q = E.call(E.lookup(QP), [])
+        sock.attrs['_send_queue'] = q
+        n = 1 + E.path.choice(3, 'queue-length')
+        items = []
+        for i in range(n):
+            it = SOpaque('qitem', 'item%d' % i, attrs={'stream_id': E.input('stream[%d]' % i, E.fresh_int('stream%d' % i, 0, 7)),
+                                                      'seq': i, 'sent_future': None,
+                                                      'started': E.input('started[%d]' % i, E.fresh_bool('started%d' % i))})
+            items.append(it)
+            E.call(E.getattr(q, 'put_nowait'), [it])
+        # Inv_Q of the pre-state: only the oldest source of a stream may have started
+        for a in range(n):
+            for b in range(a + 1, n):
+                E.assume(z3.Implies(I(items[a].attrs['stream_id']) == I(items[b].attrs['stream_id']), z3.Not(B(items[b].attrs['started']))))
+        args = [E.input('arg%d' % j, E.fresh_int('arg%d' % j, 0, 7)) for j in range(nargs)]
+        log = OpaqueLog(E)
+        try:
+            r = E.call(E.getattr(sock, mname), args)
+            if is_async:
+                E.await_value(r)
+        except PyExc:
+            pass
+        left = list(q.attrs['_queue'])
+        E.prove('frame_condition:a_partially_sent_frame_is_never_dropped_from_the_send_queue[%s.%s]' % (cname, mname),
+                z3.And([z3.Implies(B(it.attrs['started']), any(x is it for x in left)) for it in items]))
+        order = [items.index(x) for x in left if any(x is y for y in items)]
+        E.prove('frame_condition:queue_order_kept[%s.%s]' % (cname, mname), order == sorted(order))
